@@ -12,8 +12,8 @@ CHECKS = {
                 technique="TLA+ law (RexLaw) + TLC confluence check + trace validation (RexTrace) of gate-scheduled and free-running executions, cross-run agreement clauses",
                 text="RexLaw is order-independent (MC_RexLawConfluence: all interleavings of the law's steps, fixed delay streams, terminal states agree); the real AsyncGraph is run under a deterministic one-thread-at-a-time scheduler with 5 policies x 3 driving styles x real-time factors (virtual time) and free-running; every record and every returned supervisor StepState must be a behaviour of RexLaw and agree with the first run on the common prefix."),
     "C03": dict(level="model_checking", ref="6 C03",
-                technique="TLA+ law (RexLaw) model-checked over all delay histories + trace validation (RexTrace) of episode records and probe logs",
-                text="The causality / FIFO / consumer-step / window clauses are invariants of RexLaw over all delay histories of small instances (TLC); every recorded episode of generated graphs (all policy combinations, heavy jitter) is validated against the law message by message."),
+                technique="TLA+ law (RexLaw) model-checked over all delay histories + trace validation (RexTrace) of episode records and probe logs; order-only trace validation (RexOrder) of continuous-distribution and wall-clock episodes",
+                text="The causality / FIFO / consumer-step / window clauses are invariants of RexLaw over all delay histories of small instances (TLC); every recorded episode of generated graphs (all policy combinations, heavy jitter) is validated against the law message by message; episodes with Normal / mixture delays and wall-clock episodes (gate, virtual time) are validated against the order relations of the statement (RexOrder)."),
     "C04": dict(level="model_checking", ref="6 C04",
                 technique="TLA+ law (RexLaw) invariants (StartLaw, PhaseReturnsToGrid, FrequencySpacing) + trace validation of every recorded time stamp",
                 text="Exact equality of every recorded ts_scheduled/ts_max/ts_start/ts_end/delay/phase_scheduled and message ts_sent/ts_recv with the law; derived spacing/phase/advance claims are TLC invariants of the law."),
@@ -61,8 +61,8 @@ CHECKS.update({
 
 CHECKS.update({
     "C10": dict(level="model_checking", ref="6 C10",
-                technique="TLA+ model of the zero-order-hold selection (TrainableDelay: ZohWindow vs StaticWindow) enumerated exhaustively by TLC; every enumerated case replayed on the real TrainableDist.apply_delay",
-                text="All sender timelines / step times / delays / windows / skip of the bounded instance; the real apply_delay must return exactly `window` entries equal to the window a static delay d would give; the two classes in which it does not (skip tie, under-sized extension) were found by TLC on the model, reproduced on the code and are listed as known findings; any other disagreement is a violation."),
+                technique="TLA+ model of the zero-order-hold selection (TrainableDelay: ZohWindow vs StaticWindow) enumerated exhaustively by TLC; every enumerated case replayed on the real TrainableDist.apply_delay; end to end: runs of compiled systems with the delay set to d validated by RexRun (ZohApply) with the run of the static-delay system as reference",
+                text="All sender timelines / step times / delays / windows / skip of the bounded instance; the real apply_delay must return exactly `window` entries equal to the window a static delay d would give; the two classes in which it does not (skip tie, under-sized extension) were found by TLC on the model, reproduced on the code and are listed as known findings; any other disagreement is a violation. End to end: for generated graphs with one trainable connection, every d in 0..max+1 set through the distribution, init_delays or params: the compiled run must be a behaviour of RexRun whose every common step sees what the step of the compiled static-delay system saw."),
     "C18": dict(level="model_checking", ref="6 C18",
                 technique="TLA+ solver state machine (Solvers) over all loss histories incl. NaN, checked by TLC and replayed on the real cem_update_mean_stdev; per-iteration traces of real cem_step/evo_step validated by SolversTrace",
                 text="Every loss history of the bounded instance is replayed exactly on rex.cem (best loss, best candidate, elite set); end-to-end CEM and evosax runs with NaN regions are validated iteration by iteration (bounds, monotone best, best = min finite so far, best member attained it)."),
